@@ -118,7 +118,9 @@ Definition bijection_ok : bool :=
   forallb (fun r => match find_hook (if_name r) with Some _ => true | None => false end) leaves &&
   forallb (fun h => match find_iface (v_param h) with Some r => if_is_node r | None => false end) visitor &&
   (* the pure hooks are exactly the seven sinks *)
-  forallb (fun h => Bool.eqb (v_pure h) (is_sink (v_param h))) visitor.
+  forallb (fun h => Bool.eqb (v_pure h) (is_sink (v_param h))) visitor &&
+  (* every hook is virtual: what accept() calls is the client's overrider, not the default *)
+  forallb v_virtual visitor.
 
 (* --- lifting --- *)
 Lemma own_code_lift : forallb own_code_ok ifaces = true ->
